@@ -22,7 +22,7 @@ import (
 //                   1 = issued right after the first fault fired (reconnect window),
 //                   2 = probe, issued after the network was healed.
 
-var cutKinds = []string{"fin", "rst", "blackhole", "blackhole-both", "stall"}
+var cutKinds = []string{"fin", "rst", "blackhole", "blackhole-both", "stall", "goaway"}
 var cutPos = []string{"before", "header", "mid", "last", "after"}
 
 func init() {
